@@ -22,6 +22,13 @@ Driver for C03 (stateless).  One op per line:
 * `chg`          0: state attributed to the victim unchanged; 1: only new records mentioning it
                  appeared; 2: something of the victim's was altered or removed
 
+A transaction with several messages (always a signed transaction):
+
+  mtx <scenario> <txSigners> <grants> <victim> <h> <chg> <msg> <msg> [<msg> …]
+
+with `<msg>` = `<type>;<metaSigners>;<creator>;<authorityField|->`.  The decorator's check is applied
+to every message on its own (`anteOkTx`); the transaction is atomic.
+
 Answer: `ante=<pass|rej> res=<ok|rej> verdict=<fine|violation>`; governance authority = 99.
 -/
 namespace Driver.C03
@@ -34,8 +41,54 @@ def authorityIgnoresCreator : List String := ["paloma.UpdateParams", "skyway.Upd
 
 def grantsFn (l : List (Nat × Nat)) : Nat → Nat → Bool := fun g e => l.contains (g, e)
 
+structure PMsg where
+  typ : String
+  metaSigners : List Nat
+  creator : Nat
+  authf : Option Nat
+
+def parseMsg? (tok : String) : Option PMsg :=
+  match tok.splitOn ";" with
+  | [typ, ms, cr, af] => do
+    let metaSigners ← parseNatList? ms
+    let creator ← parseNat? cr
+    let authf ← if af == "-" then some none else (parseNat? af).map some
+    pure { typ, metaSigners, creator, authf }
+  | _ => none
+
+def authorityOkOf (typ : String) (creator : Nat) (authf : Option Nat) : Bool :=
+  (authf == none || authf == some authority)
+  && (authorityIgnoresCreator.contains typ || creator == authority)
+
+def stepMulti (sc txs gs vi h chg : String) (toks : List String) : String :=
+  let _ := sc
+  match parseNatList? txs, parsePairList? gs, parseNat? vi, toks.mapM parseMsg? with
+  | some txSigners, some grantList, some victim, some pmsgs =>
+    if pmsgs.isEmpty || (h != "ok" && h != "rej" && h != "pre") || (chg != "0" && chg != "1" && chg != "2") then "bad-op" else
+    let grants := grantsFn grantList
+    let msgs : List Msg := pmsgs.map fun p =>
+      { typ := p.typ, signers := p.metaSigners, creator := p.creator, idField := fun _ => victim }
+    let declared := pmsgs.map fun p => declaredSigners p.typ p.metaSigners p.authf
+    let ante := h != "pre" && sigCheckTx txSigners declared && anteOkTx msgs grants
+    let handlersMayAccept := pmsgs.all fun p =>
+      match ruleOf p.typ with
+      | none => false
+      | some .authorityOnly => authorityOkOf p.typ p.creator p.authf
+      | some _ => true
+    let res := ante && handlersMayAccept && h == "ok"
+    let may := pmsgs.any fun p =>
+      mayTouch authority p.typ p.metaSigners p.creator grants victim [] (chg == "2")
+      || (ruleOf p.typ == some .authorityOnly && authorityOkOf p.typ p.creator p.authf)
+    let verdict :=
+      if chg == "0" then "fine"
+      else if !res then "violation"
+      else if may then "fine" else "violation"
+    s!"ante={if ante then "pass" else "rej"} res={if res then "ok" else "rej"} verdict={verdict}"
+  | _, _, _, _ => "bad-op"
+
 def step (args : List String) : String :=
   match args with
+  | "mtx" :: sc :: txs :: gs :: vi :: h :: chg :: toks => stepMulti sc txs gs vi h chg toks
   | ["tx", typ, sc, txs, ms, cr, af, gs, vi, red, h, chg] =>
     match parseNatList? txs, parseNatList? ms, parseNat? cr, parsePairList? gs, parseNat? vi with
     | some txSigners, some metaSigners, some creator, some grantList, some victim =>
